@@ -11,11 +11,11 @@ tasks and every panicking subset `c.panics`.
 
 Scope: ONE run of the pool. `start` is enabled only in `created`, so the reachable states — and with them every
 theorem below — cover the lifecycle scripts `start, execute*, stop?, drop`. Scripts that start the pool again
-(`… stop, start …`, any number of times; `start, start`) are in the property's quantifier but outside this model;
-they are covered by testing only: `./check C08` runs them on the real pool and judges the implementation's summary
-and event log with the executable predicates `PoolSpec.Summary.ok` / `PoolSpec.LogCounts.ok` (see `Driver/C08.lean`).
-Full-strength statement that is NOT proved: the theorems below for a transition system with generations of workers
-and the detached recovery thread of every earlier run.
+(`… stop, start …`, any number of times; `start, start`) are the subject of `Model/PoolRestart.lean` (a several-runs
+system over the same `step`) and `Props/C08Restart.lean`, which lifts the invariant behind the theorems below to every
+run of the pool value. Their event logs are not replayed through that system (worker ids are reused by every run);
+`./check C08` judges them with the executable predicates `PoolSpec.Summary.ok` / `PoolSpec.LogCounts.ok`
+(see `Driver/C08.lean`).
 -/
 namespace Humphrey.Pool
 open PoolSpec
